@@ -203,5 +203,16 @@ CHECKS["C28"] = dict(
     design_ref="DESIGN.md §5 C28", note="Trusted: TLC, the value (de)serialiser of the harness. Depth <= 3; floats on the quarter grid.",
     technique="TLA+ model of the value encoding checked by TLC + recorded round trips of the real functions judged by TLC")
 
+CHECKS["C12"] = dict(
+    category="exploration",
+    text="SemiringA.tla defines the probability semiring over exact rationals and TLC checks the commutative-semiring laws on "
+         "a grid at the specification level; every operation (plus, times, negate, normalize, value, ad_complement, one, zero) "
+         "on all pairs of a rational grid plus near-boundary values is executed on the real SemiringProbability, "
+         "SemiringLogProbability (through log/exp) and SemiringSymbolic (expression evaluated) and compared with TLC's exact "
+         "result; base-class defaults is_one(one()), is_zero(zero()), normalize(a, one()) = a are checked on a minimal subclass.",
+    design_ref="DESIGN.md §5 C12", note="Trusted: TLC exact rational arithmetic (32-bit), float comparison 1e-9 (1e-8 for log). Float "
+    "accuracy off the grid (log1p/exp) is not decided.",
+    technique="TLA+ exact semiring model (laws checked by TLC) used as pointwise oracle for the real semirings")
+
 NOT_YET = "check not built yet in this round (planned in DESIGN.md §5); not claimed"
 NOT_APPLICABLE = {}
